@@ -7,6 +7,7 @@ import FeatModel.Lemmas.C16_burgers
 import FeatModel.Lemmas.C16_blocked
 import FeatModel.Lemmas.C16_history
 import FeatModel.Lemmas.C16_local
+import FeatModel.Lemmas.C16_trace
 /-!
 # C16 — property theorems (statements only; proofs live in Lemmas/C16_*.lean)
 
@@ -417,3 +418,35 @@ theorem C16.full_statement_affine (nT nS : Nat) (tm sm : List (List Nat)) (g : G
   refine ⟨st, h, fun x row => ?_⟩
   rw [sem, List.map_map]
   rfl
+
+/-! ### facet-to-cell reference map of the trace assembler (3-D) -/
+
+/-- **trace_orientation_consistent**: for every local face of the hexahedron (6) and the tetrahedron (4) and every stored
+vertex order of the facet (8 symmetries of the quadrilateral, 6 of the triangle), with the orientation code
+`compare(stored facet row, local face)` the map `FaceRefTrafo ∘ CongruencyTrafo` the assembler applies to a facet
+cubature point is (as a polynomial map) the parametrisation `s ↦ Σ_m N_m(s)·refVertex(r[m])` of the *stored* facet in
+the cell's reference coordinates. Hence the mapped point lies on the right local face and, the physical point being
+`Σ_m N_m(s)·vertex(r[m])` from either side, both adjacent cells evaluate at the same physical point. -/
+theorem C16.trace_orientation_consistent :
+    FeatModel.TraceOrient.consistentAll FeatModel.FE.Kind.H = true ∧
+    FeatModel.TraceOrient.consistentAll FeatModel.FE.Kind.S = true := by decide +kernel
+
+/-- pointwise form: equal normalised polynomial maps give equal points for every facet point `s` -/
+theorem C16.trace_point_sound (a b : List FeatModel.Poly.Poly) (h : FeatModel.TraceOrient.polysEq a b = true)
+    (s : List Rat) : a.map (FeatModel.Poly.evalAt s) = b.map (FeatModel.Poly.evalAt s) :=
+  C16L.polysEq_sound a b h s
+
+/-- **trace_inverse_code**: with the arguments of the comparison swapped (the code of the inverse symmetry) the point map
+is still the right one exactly when the symmetry is self-inverse; the non-self-inverse codes are the rotations 1 and 2 of
+the quadrilateral and of the triangle — for these the assembler would evaluate a *different* point. -/
+theorem C16.trace_inverse_code :
+    FeatModel.TraceOrient.inverseAll FeatModel.FE.Kind.H = true ∧
+    FeatModel.TraceOrient.inverseAll FeatModel.FE.Kind.S = true ∧
+    FeatModel.TraceOrient.rotationCodes FeatModel.FE.Kind.H = [1, 2] ∧
+    FeatModel.TraceOrient.rotationCodes FeatModel.FE.Kind.S = [1, 2] := by decide +kernel
+
+/-- witness: top face of the hexahedron stored with symmetry 1 (code 1): the right point and the point of the inverse
+code 2 differ -/
+example :
+    FeatModel.TraceOrient.facetPoint FeatModel.FE.Kind.H 1 1 [1/3, 1/5] = some [-1/5, 1/3, 1] ∧
+    FeatModel.TraceOrient.facetPoint FeatModel.FE.Kind.H 1 2 [1/3, 1/5] = some [1/5, -1/3, 1] := by decide +kernel
